@@ -4,3 +4,4 @@ import DsdVerif.Props.C13Pil
 import DsdVerif.Props.C13Kernel
 import DsdVerif.Props.C13More
 import DsdVerif.Props.C13Doc
+import DsdVerif.Props.C13Layout
